@@ -169,4 +169,4 @@ def run(ctx: Ctx) -> None:
 
 
 def replay(case: Any) -> List[Tuple[str, str]]:
-    return replay_with(unit_fn, case)
+    return replay_with(unit_fn, case, PROPERTY)
